@@ -50,8 +50,8 @@ class ReaderRuns:
                 kw = {'encoding': codec(it), 'iso_config': common.generic_bit_config(it)}
             obj, f = readers.make_vbs_reader(it, prog, cls, blocked=blocked, extra_kwargs=kw)
             vd = obj.fields.get('vbs_data')
-            if isinstance(vd, ObjV) and 'buffer' in vd.fields:
-                vd.fields['buffer'] = it.sym_bytes('buffered', tags=WIRE)
+            if isinstance(vd, ObjV):
+                common.set_state(it, vd, 'buffer', it.sym_bytes('buffered', tags=WIRE))
                 it.user['unblocker'] = vd
             r = obj.cls.lookup('__next__')
             it.user['events0'] = len(it.events)
